@@ -35,6 +35,30 @@ def run(rep):
             d["intrep"] = True
             extra.append(d)
     allc = cases + extra
+    # thorough: seeded random longer receivers with argument values drawn from the enumerated grid (spec-level JSON;
+    # the judge re-checks Supported and skips what lies outside the specified fragment)
+    nrandom = 0
+    if rep.tier == "thorough":
+        rnd = random.Random(rep.seed)
+        pool = {}
+        for c in cases:
+            for i, a in enumerate(c["args"]):
+                pool.setdefault((c["m"], i), {})[key(a)] = a
+        alphabet = [97, 98, 99, 65, 66, 88, 48, 49, 32, 9, 10, 160, 8232, 233, 223, 946, 12354, 65279, 55357, 56832, 45, 46]
+        methods = sorted({c["m"] for c in cases if not c["m"].startswith("fn:")})
+        for _ in range(40000):
+            m = rnd.choice(methods)
+            n = rnd.choice([0, 1, 2, 3, 5, 8, 13, 21, 40])
+            u = [rnd.choice(alphabet) for _ in range(n)]
+            npos = max([i for (mm, i) in pool if mm == m] + [-1]) + 1
+            k = rnd.randint(0, npos)
+            args = [rnd.choice(list(pool[(m, i)].values())) for i in range(k)]
+            if m == "repeat" and n > 3:
+                continue
+            allc.append({"id": len(allc), "m": m, "recv": {"k": "str", "u": u}, "args": args, "random": True,
+                         "intrep": rnd.random() < 0.3})
+            nrandom += 1
+        rep.spaces.append({"space": "seeded random receivers (<= 40 units) x grid arguments", "cases": nrandom, "complete": False})
     # 2. replay into the engine
     results = engine.run_cases(rep.pid, allc, driver="harness.drivers:call_driver")
     byid = {c["id"]: c for c in allc}
@@ -57,9 +81,11 @@ def run(rep):
                 rep.sample({"case": show_case(byid[i]), "engine": r["out"], "verdict": "pass"})
             continue
         if v["v"] == "unsupported":
+            if byid[i].get("random"):
+                continue
             raise Machinery("judge called an enumerated case unsupported: %r" % byid[i])
         rep.mismatch(show_case(byid[i]), {"expected": v["exp"], "actual": r["out"], "case": byid[i]}, dev=v.get("dev", ""))
-    rep.exhaustive = True
+    rep.exhaustive = True          # the enumerated grids are complete; the random part is a sample on top
     rep.notes["rule"] = "distinct (method, receiver, argument vector, number representation) tuples; every one is judged"
     rep.notes["distinct_nontrivial"] = len(recs)
     rep.assumptions += ["JsString.tla transcribes ECMA-262 String.prototype for the listed methods",
